@@ -33,3 +33,16 @@ build_sched_harness() {
   (cd "$VERIF_DIR/harness" && go build -modfile="$b/harness.mod" -overlay "$b/overlay.json" -o "$b/bin/$cmd" "./cmd/$cmd") > "$b/build.log" 2>&1 \
       || { cat "$b/build.log"; tool_error "building $cmd against the rewritten scheduler failed"; return 2; }
 }
+
+# build_litmus <builddir>: native + rewritten litmus suite in one binary
+build_litmus() {
+  local b="$1"
+  ensure_rewriter || return 2
+  rm -rf "$b/rwl"; mkdir -p "$b/rwl" "$b/bin"
+  "$VERIF_DIR/build/bin/rewrite" -repo "$VERIF_REPO" -dir "$VERIF_DIR/harness" -out "$b/rwl" -vs "$VERIF_DIR/engine/vs" \
+      -pkgs ./litmus -pkgname litmusvs -mapto "$VERIF_DIR/harness/litmusvs" -overlay "$b/overlay-litmus.json" > "$b/rewrite-litmus.log" 2>&1 \
+      || { cat "$b/rewrite-litmus.log"; tool_error "rewriter failed on litmus suite"; return 2; }
+  harness_modfile "$b"
+  (cd "$VERIF_DIR/harness" && go build -modfile="$b/harness.mod" -overlay "$b/overlay-litmus.json" -o "$b/bin/litmusmc" ./cmd/litmusmc) > "$b/build-litmus.log" 2>&1 \
+      || { cat "$b/build-litmus.log"; tool_error "building litmusmc failed"; return 2; }
+}
